@@ -7,7 +7,7 @@ import common as C
 
 PROP = 'C13'
 LEAN_MODULES = ['PMV.Props.C13', 'PMV.Lemmas.ReduceLane', 'PMV.Lemmas.ReduceLane2', 'PMV.Lemmas.ReduceSort',
-                'PMV.Lemmas.ReduceArr', 'PMV.Lemmas.ReduceAxis']
+                'PMV.Lemmas.ReduceArr', 'PMV.Lemmas.ReduceAxis', 'PMV.Lemmas.ReduceBcast']
 PARALLEL = True
 MANIFEST = {
     'text': 'Kernel-checked theorems (PMV/Props/C13.lean, helper lemmas in PMV/Lemmas/Reduce*.lean) that every '
@@ -503,6 +503,11 @@ def judge_builtin(case, got, base):
     if isinstance(got, list) and got and got[0] == 'obj':
         if not close([got[1], got[2]], base):
             return 'elements differ'
+        early = case['name'] in ('max', 'min', 'argmax', 'argmin', 'median') and 0 in case['shape']
+        if case['bi'] == 'S' and base == [[], ['M']] and not early:
+            # documented API ("masked: value to return if builtins is True but the returned value is masked");
+            # the zero-sized early return of max/min/argmax/argmin/median is the noted exception (DESIGN.d/C13.md)
+            return 'masked= value not returned for a single masked result'
         want = (case.get('units') or '-') if case['name'] in VALUE_OPS else '-'
         if got[3] != want:
             return 'units %s, expected %s' % (got[3], want)
